@@ -28,6 +28,7 @@ EXTENDS Integers, Sequences, FiniteSets, TLC
 CONSTANTS Clients,     \* client ids 1..N
           Creators,    \* clients that open the key with Create
           Subscribers, \* ... with Subscribe; all others use SubscribeOrCreate
+          OtherType,   \* clients that open the key as another datatype type (List instead of Counter)
           MaxOps,      \* local operations per client
           MaxSends,    \* requests created in total
           MaxServes,   \* how often one request may reach the server (2 = duplication)
@@ -44,13 +45,14 @@ vars == <<cl, dt, oplog, reqs, resps, nsend, nserve, napply, act, hist>>
 
 NoCp == <<>>
 ModeOf(c) == IF c \in Creators THEN "dueCreate" ELSE IF c \in Subscribers THEN "dueSub" ELSE "dueSubCreate"
+TypeOf(c) == IF c \in OtherType THEN "list" ELSE "counter"
 OpId(c, n) == <<c, n, 0>>
 SnapId(c) == <<c, 1, 1>>
 Max(a, b) == IF a > b THEN a ELSE b
 SeqToSet(s) == {s[i] : i \in 1..Len(s)}
 
 Init == /\ cl = [c \in Clients |-> [state |-> "closed", cps |-> 0, cpc |-> 0, seq |-> 0, applied |-> <<>>, buf |-> <<>>, duid |-> 0, errs |-> 0]]
-        /\ dt = [exists |-> FALSE, duid |-> 0, end |-> 0, scp |-> [c \in Clients |-> NoCp]]
+        /\ dt = [exists |-> FALSE, duid |-> 0, end |-> 0, typ |-> "", scp |-> [c \in Clients |-> NoCp]]
         /\ oplog = <<>>
         /\ reqs = {} /\ resps = {}
         /\ nsend = 0 /\ nserve = [i \in {} |-> 0] /\ napply = [i \in {} |-> 0]
@@ -66,12 +68,13 @@ Open(c) ==
                                           !.seq = IF m = "dueSub" THEN 0 ELSE 1,
                                           !.applied = IF m = "dueSub" THEN <<>> ELSE <<SnapId(c)>>,
                                           !.buf = IF m = "dueSub" THEN <<>> ELSE <<SnapId(c)>>]]
-    /\ Record([name |-> "open", c |-> c, mode |-> ModeOf(c)])
+    /\ Record([name |-> "open", c |-> c, mode |-> ModeOf(c), typ |-> TypeOf(c)])
     /\ UNCHANGED <<dt, oplog, reqs, resps, nsend, nserve, napply>>
 
 Local(c) ==
     /\ cl[c].state # "closed" /\ cl[c].seq < MaxOps + 1
     /\ cl[c].state # "dueSub"          \* a datatype that only subscribes has no state to work on yet
+    /\ c \notin OtherType              \* clients of the other type only exercise the entry contract
     /\ cl' = [cl EXCEPT ![c].seq = @ + 1, ![c].applied = Append(@, OpId(c, cl[c].seq + 1)),
                         ![c].buf = Append(@, OpId(c, cl[c].seq + 1))]
     /\ Record([name |-> "local", c |-> c, seq |-> cl[c].seq + 1])
@@ -82,7 +85,7 @@ Send(c) ==
     /\ LET x == cl[c]
            r == [id |-> nsend + 1, from |-> c, duid |-> x.duid,
                  create |-> x.state \in {"dueCreate", "dueSubCreate"}, sub |-> x.state \in {"dueSub", "dueSubCreate"},
-                 cps |-> x.cps, cpc |-> x.seq, ops |-> SelectSeq(x.buf, LAMBDA o : o[2] > x.cpc)]
+                 cps |-> x.cps, cpc |-> x.seq, ops |-> SelectSeq(x.buf, LAMBDA o : o[2] > x.cpc), typ |-> TypeOf(c)]
        IN /\ reqs' = reqs \cup {r}
           /\ nserve' = (r.id :> 0) @@ nserve
           /\ Record([name |-> "send", c |-> c, id |-> r.id, nops |-> Len(r.ops), cps |-> r.cps, cpc |-> r.cpc,
@@ -119,6 +122,7 @@ Serve(r) ==
                IN IF ~res.ok THEN refuse("missingOps")
                   ELSE /\ oplog' = res.log
                        /\ dt' = [exists |-> TRUE, duid |-> IF dt.exists THEN dt.duid ELSE r.duid, end |-> Len(res.log),
+                                 typ |-> IF dt.exists THEN dt.typ ELSE r.typ,
                                  scp |-> [dt.scp EXCEPT ![c] = ncp]]
                        /\ Respond(r, base @@ [kind |-> kind, code |-> "", cps |-> ncp.s, cpc |-> ncp.c, ops |-> pulled,
                                               from |-> fromSseq + 1, duid |-> IF dt.exists THEN dt.duid ELSE r.duid])
@@ -128,7 +132,8 @@ Serve(r) ==
            \* ordinary push (its duid is the datatype's).
            again == IF dt.duid = r.duid THEN run("normal", dt.scp[c], r.cps, r.ops)
                     ELSE run("subscribed", dt.scp[c], r.cps, <<>>)
-       IN CASE r.create /\ r.sub ->
+       IN CASE (r.create \/ r.sub) /\ dt.exists /\ dt.typ # r.typ -> refuse("typeMismatch")   \* the key names a datatype of another type
+            [] r.create /\ r.sub ->
                  IF ~dt.exists THEN run("created", [s |-> 0, c |-> 0], r.cps, r.ops)
                  ELSE IF ~subscribed THEN run("subscribed", [s |-> 0, c |-> 0], r.cps, <<>>)
                  ELSE again
